@@ -38,6 +38,12 @@ CHECKS["C06"] = {
     "technique": "symbolic execution (CrossHair/z3) of the real evaluation + local store over a file-system model with a symbolic crash index and torn-write length; real-OS replay by os._exit in a child",
 }
 
+CHECKS["C07"] = {
+    "text": "Interleavings as solver variables: two simulated processes run the real _api / LocalFileStore / codec code over one POSIX file-system model (validated differentially against the OS) under a replay scheduler; which process starts and the pre-emption points (global file-system-step counts, each buffered write split in two) are symbolic ints, explored exhaustively up to the pre-emption bound (quick 1, thorough 2) for three scenarios: same evaluation on a cold store incl. store creation, writer of changed code vs reader of committed paths, shared internal directory with different data directories. Every returned value must be complete and correct, no process may fail, and a fresh process afterwards executes nothing. Counterexamples are replayed with two real OS processes released step by step by a controller.",
+    "design_ref": "DESIGN.md 5-C07",
+    "technique": "symbolic execution (CrossHair/z3) over a file-system model with a replay scheduler; schedule (first process, switch points) as solver variables; real two-process replay",
+}
+
 NOT_APPLICABLE = {}
 
 
